@@ -123,7 +123,3 @@ func cmdVerify(args []string) {
 	fmt.Printf("solver: %d queries, wins %v, total %dms\n", d.Stats.Queries, d.Stats.Wins, d.Stats.TotalMs)
 }
 
-func cmdCheck(args []string) {
-	fmt.Fprintln(os.Stderr, "not yet")
-	os.Exit(2)
-}
